@@ -48,6 +48,11 @@ META = {
   design_ref="DESIGN.md section 3, C18",
   note="Cross-decoding with the standard codec is only required for valid UTF-8 strings (the standard codec rejects others by design); raw binary keys are checked on the self round trips of VTproto and Binary.",
   technique="rapid random generation, differential against the standard protobuf codec + round trips"),
+ "C12": dict(
+  text="Bounded-exhaustive enumeration of a boundary-biased sub-grid of the quantifier (mode x segment size x store/output initial blocks, start, stop, final block around segment boundaries) plus rapid generation over the full grid and over cursor shapes with a fake fork resolver; pipeline.BuildRequestDetails and plan.BuildTier1RequestPlan are called as Tier1Service.blocks calls them and judged by an oracle restating the property (stores built to the hand-off, cached outputs read for [start,min(hand-off,stop)), linear [hand-off,stop), gate, no gap/overlap, whole segments, impossible requests rejected, forked cursor -> undo for the junction and restart after it).",
+  design_ref="DESIGN.md section 3, C12",
+  note="The glue between the two functions (start==stop check, ValidateRequestStartBlock, scheduleStores) is restated in the harness; requests whose resolved start lies beyond the stop block (cursor on the stop block) are not judged.",
+  technique="bounded exhaustive enumeration + rapid random generation against a restated specification"),
  "C13": dict(
   text="Bounded-exhaustive enumeration of the quantifier's whole grid (segment size 1..16 x initial 0..64 x end..96, every index and block; Split start 0..40 x len 1..60 x chunk 1..16; all lists of <=4 ranges over 0..12) plus rapid-generated large values, judged by a validity predicate (non-empty, contiguous, disjoint, aligned, union exact, index lookups, out-of-range nil; Split/Merged preserve the covered block set).",
   design_ref="DESIGN.md section 3, C13",
